@@ -10,6 +10,7 @@ import (
 	"io"
 	"math/rand"
 	"os"
+	"sort"
 	"sync"
 	"time"
 
@@ -234,7 +235,7 @@ func (u *urun) exec(sc UScenario, pol string) {
 	enc.Encode(ev{"op": "reset", "kind": sc.Kind, "imm": sc.Imm, "pol": pol, "lf": sc.LF})
 	u.out.Write(u.buf.Bytes())
 	u.buf.Reset()
-	for _, st := range sc.Steps {
+	for si, st := range sc.Steps {
 		w := worlds[st.Via]
 		if w == nil {
 			panic("bad via " + st.Via)
@@ -248,6 +249,9 @@ func (u *urun) exec(sc UScenario, pol string) {
 		w.step(ctx, st.Op)
 		fst.disarm()
 		u.line(fmt.Sprintf("%q:%q,%q:[%v,%v],%q:%d", "via", st.Via, "wf", st.WF[0], st.WF[1], "first", st.First))
+		if sc.Kind == "listing" && !(si == len(sc.Steps)-1 || (st.Via != "u" && sc.Steps[si+1].Via == "u")) {
+			continue // a large universe: project the members where the writing ends and at the end
+		}
 		for i := range mems {
 			w.snap1(ctx, mems[i])
 			u.line(fmt.Sprintf("%q:%d", "member", i))
@@ -627,9 +631,92 @@ func genUnifyScenario(rnd *rand.Rand, cat *Catalog, i int) UScenario {
 	return sc
 }
 
+// listCatalog: a universe for listings - 8 repositories, 8 tags, one base manifest and 8
+// manifests that refer to it as their subject.
+func listCatalog(rnd *rand.Rand) *Catalog {
+	cat := &Catalog{Uploads: []string{"u1", "u2"}}
+	perm := rnd.Perm(len(repoPool))
+	for i := 0; i < 8; i++ {
+		cat.Repos = append(cat.Repos, repoPool[perm[i]])
+	}
+	perm = rnd.Perm(len(tagPool))
+	for i := 0; i < 8; i++ {
+		cat.Tags = append(cat.Tags, tagPool[perm[i]])
+	}
+	sort.Strings(cat.Repos)
+	sort.Strings(cat.Tags)
+	cat.addBlob("lb0", []int{1})
+	cat.addBlob("lb1", []int{2, 3})
+	cat.addImage("base", "lb0", nil, "-", "-", fmt.Sprintf("base-%d", rnd.Int63()), "", 0)
+	for k := 1; k <= 8; k++ {
+		cat.addImage(fmt.Sprintf("ref%d", k), "lb0", nil, "base", "image", fmt.Sprintf("ref%d-%d", k, rnd.Int63()), "", 0)
+	}
+	return cat
+}
+
+// listingScenario: the members' listings (repositories, tags of one repository, referrers of
+// one subject) diverge in both directions: of the 8 names of each kind at least two are
+// private to member 0 and at least two to member 1, the rest in both or in none, interleaved
+// in sort order as the draw has it.  swap exchanges the members.
+func listingScenario(rnd *rand.Rand, cat *Catalog, swap bool) UScenario {
+	sc := UScenario{Kind: "listing"}
+	hot := cat.Repos[rnd.Intn(len(cat.Repos))]
+	draw := func(n int) []int { // 0: member 0 only, 1: member 1 only, 2: both, 3: none
+		for {
+			cl := make([]int, n)
+			cnt := [4]int{}
+			for i := range cl {
+				cl[i] = []int{0, 0, 0, 1, 1, 1, 2, 2, 3, 3}[rnd.Intn(10)]
+				cnt[cl[i]]++
+			}
+			if cnt[0] >= 2 && cnt[1] >= 2 {
+				return cl
+			}
+		}
+	}
+	direct := func(class int, ops ...Op) {
+		for _, via := range [][]string{{"m0"}, {"m1"}, {"m0", "m1"}, {}}[class] {
+			for _, o := range ops {
+				sc.Steps = append(sc.Steps, UStep{Via: via, Op: o, First: -1})
+			}
+		}
+	}
+	blob := func(r, b string) Op { return Op{Op: "PushBlob", R: r, C: b, DD: b, DS: len(cat.byID[b].Data)} }
+	direct(2, blob(hot, "lb0"), Op{Op: "PushManifest", R: hot, T: "-", C: "base", MT: "image"})
+	for i, c := range draw(len(cat.Tags)) {
+		direct(c, Op{Op: "PushManifest", R: hot, T: cat.Tags[i], C: "base", MT: "image"})
+	}
+	for i, c := range draw(len(cat.Repos)) {
+		if cat.Repos[i] != hot {
+			direct(c, blob(cat.Repos[i], "lb1"))
+		}
+	}
+	for k, c := range draw(8) {
+		direct(c, Op{Op: "PushManifest", R: hot, T: "-", C: fmt.Sprintf("ref%d", k+1), MT: "image"})
+	}
+	rnd.Shuffle(len(sc.Steps)-4, func(i, j int) { sc.Steps[4+i], sc.Steps[4+j] = sc.Steps[4+j], sc.Steps[4+i] })
+	if swap {
+		for i := range sc.Steps {
+			sc.Steps[i].Via = map[string]string{"m0": "m1", "m1": "m0"}[sc.Steps[i].Via]
+		}
+	}
+	other := cat.Repos[rnd.Intn(len(cat.Repos))]
+	ls := []Op{
+		{Op: "ListTags", R: hot}, {Op: "ListTags", R: hot, Start: cat.Tags[1+rnd.Intn(4)]}, {Op: "ListTags", R: hot, Start: "m"},
+		{Op: "ListRepos"}, {Op: "ListRepos", Start: cat.Repos[rnd.Intn(4)]}, {Op: "ListRepos", Start: "b0"},
+		{Op: "Referrers", R: hot, C: "base"}, {Op: "Referrers", R: hot, C: "ref1"},
+		{Op: "ListTags", R: other}, {Op: "Referrers", R: other, C: "base"},
+	}
+	sc.Steps = append(sc.Steps, viaU(ls)...)
+	return sc
+}
+
 func unifyCatalog(kind string, seed int64) *Catalog {
 	if kind == "mc" {
 		return mcCatalog()
+	}
+	if kind == "list" {
+		return listCatalog(rand.New(rand.NewSource(seed)))
 	}
 	return randCatalog(rand.New(rand.NewSource(seed)), 3, 3, 8, 9, false)
 }
@@ -668,7 +755,12 @@ func unifyCmd(args []string) error {
 	writeUnifyHeader(bw, u.cat, *catKind, *seed)
 	rnd := rand.New(rand.NewSource(*seed*7919 + 13))
 	for i := 0; i < *n; i++ {
-		sc := genUnifyScenario(rnd, u.cat, i)
+		var sc UScenario
+		if *catKind == "list" {
+			sc = listingScenario(rnd, u.cat, i%2 == 1)
+		} else {
+			sc = genUnifyScenario(rnd, u.cat, i)
+		}
 		for _, pol := range []string{"seq", "conc"} {
 			u.exec(sc, pol)
 			total++
